@@ -85,7 +85,7 @@ def localOp (atomic : Bool) (snap cur : List (Bytes × Bytes)) (packed store pac
     (cmds : List (Bytes × Bytes)) : String :=
   let t : LocalRepo := ⟨refsOf cur, setOf store, setOf packed⟩
   let have_ := (snap.map (·.2)).filter (fun v => !isZero v)
-  let (tf, st) := localSendPack (refsOf snap) t atomic packIds have_ cmds
+  let (tf, st) := localSendPack LocalFlags.coded (refsOf snap) t atomic packIds have_ cmds
   let names := cur.map (·.1) ++ snap.map (·.1) ++ cmds.map (·.1)
   let status := match st with
     | none => "early"
